@@ -24,8 +24,10 @@ import (
 // scheduler with statement-level preemption.
 
 type C13Actor struct {
-	Kind     string `json:"kind"` // writer reader abandoner badopen
+	Kind     string `json:"kind"` // writer reader abandoner badopen creator
 	Sessions int    `json:"sessions"`
+	SlowS    int64  `json:"slow_s,omitempty"`       // the session sleeps this many simulated seconds while it holds the handle
+	Twice    bool   `json:"close_twice,omitempty"`  // every handle is closed a second time at the start of the next session
 	Hostile  string `json:"hostile,omitempty"` // short badheader dir rocreate
 }
 
@@ -80,6 +82,12 @@ func (c13Sim) Gen(prop, tier string, r *rand.Rand) interface{} {
 			if prop == "C05" {
 				a.Kind, a.Hostile = "reader", ""
 			}
+		}
+		if (a.Kind == "writer" || a.Kind == "reader") && chance(r, 0.15) {
+			a.SlowS = pick(r, int64(2), 5, 30)
+		}
+		if (a.Kind == "writer" || a.Kind == "reader") && chance(r, 0.15) {
+			a.Twice = true
 		}
 		if a.Sessions > budget {
 			a.Sessions = budget
@@ -163,6 +171,11 @@ func (c13Sim) Run(e *Env, ci interface{}) {
 	}
 	db.Sync()
 	db.Close()
+	// the process has used WithoutFlock before (an observer): options of one
+	// handle must not stick to later handles
+	if ob, oerr := wt.Open(path, wt.WithoutFlock()); oerr == nil {
+		ob.Close()
+	}
 
 	s := NewSched(c.SchedSeed, nSites)
 	s.PreemptP = c.PreemptP
@@ -238,7 +251,17 @@ func (c13Sim) Run(e *Env, ci interface{}) {
 		ai, a := ai, a
 		name := fmt.Sprintf("A%d", ai)
 		s.Go(name, func() {
+			var prev *wt.Whisper
 			for k := 0; k < a.Sessions; k++ {
+				closeAgain := func() {
+					if a.Twice && prev != nil {
+						// closing an old handle a second time - while a newer handle is
+						// open, possibly on the same descriptor number - must not touch it
+						prev.Close()
+						prev = nil
+						e.Note("handle-closed-twice")
+					}
+				}
 				switch a.Kind {
 				case "writer", "abandoner":
 					call := int64(s.Event())
@@ -246,6 +269,7 @@ func (c13Sim) Run(e *Env, ci interface{}) {
 					if db == nil {
 						return
 					}
+					closeAgain()
 					g, bad := uniform(db)
 					if bad != "" {
 						closeShared(db)
@@ -257,6 +281,10 @@ func (c13Sim) Run(e *Env, ci interface{}) {
 						viol("C13.session", "%s: update failed: %v", name, err)
 						return
 					}
+					if a.SlowS > 0 {
+						time.Sleep(time.Duration(a.SlowS) * time.Second)
+						e.Fault("slow-session")
+					}
 					if a.Kind == "writer" {
 						if err := db.Sync(); err != nil {
 							closeShared(db)
@@ -267,6 +295,7 @@ func (c13Sim) Run(e *Env, ci interface{}) {
 						e.Fault("F2.abandon-session")
 					}
 					closeShared(db)
+					prev = db
 					ret := int64(s.Event())
 					mu.Lock()
 					if a.Kind == "writer" {
@@ -282,10 +311,16 @@ func (c13Sim) Run(e *Env, ci interface{}) {
 					if db == nil {
 						return
 					}
+					closeAgain()
 					g, bad := uniform(db)
 					// also through the fetch path
 					vals, _, ferr := fetchWhole(db, 0, a0, now)
+					if a.SlowS > 0 {
+						time.Sleep(time.Duration(a.SlowS) * time.Second)
+						e.Fault("slow-session")
+					}
 					closeShared(db)
+					prev = db
 					ret := int64(s.Event())
 					if bad != "" {
 						viol("C13.no-mixture", "%s (reader) saw a mixture of generations: %s", name, bad)
